@@ -58,3 +58,16 @@ pub fn keep<T, E>(r: Result<T, E>) -> Option<T> {
         }
     }
 }
+
+/// Set by replay unit tests (run_check.py): the harness runs natively, `#[kani::stub]`s are not applied.
+static mut PLAYBACK: bool = false;
+
+pub fn set_playback(on: bool) {
+    unsafe {
+        PLAYBACK = on;
+    }
+}
+
+pub fn is_playback() -> bool {
+    unsafe { PLAYBACK }
+}
